@@ -62,6 +62,14 @@ def run(chk):
                "the tag loop of %s iterates over `%s` and pushes the tag marker %s times per (present, absent) slot; expected one marker for every slot (present or absent) up to the last present tag: "
                "an absent tag before a present one must leave an empty placeholder, otherwise later tags shift into earlier categories" % (f_, ety, {k_: sorted(v_) for k_, v_ in table.items()}),
                site=C.site(C.body(w, f_), h_), sample={"fn": f_, "element": ety, "table": {str(k_): sorted(v_) for k_, v_ in table.items()}})
+
+    fmt.text_scan_rule(chk, w, "R04.1", parser)
+    # ---- tag count taken after the last tag was recorded
+    coll, counts, late = fmt.tag_count_order(w, parser)
+    chk.ob("R04.4", "parser:tag-count-after-last-tag", coll is not None and len(counts) == 1 and not late,
+           "%s: per-character tag lists in local %s, tag-count computations at %s, mutable borrows of the lists reachable after the count: %s; "
+           "the slot count must be taken after the pending tag of the last character has been appended, otherwise that character can hold more tags than slots" % (parser, coll, counts, late),
+           site=C.site(C.body(w, parser), late[0][1] if late else None), sample={"counts": counts, "late": late})
     # ---- R04.3
     texts = [s for s in sites if s.role == "text"]
     chk.ob("R04.3", "writer:text-literal", len(texts) >= 2 and all(s.kind == "push" for s in texts), "text characters are not pushed literally by the writer: %s" % [(s.kind, s.detail[:40]) for s in texts])
